@@ -369,7 +369,7 @@ func c07nsCreateCase(t *testing.T, rt *rapid.T, env *c07nsEnv, rec *verifx.Recor
 	}
 	switch flavour {
 	case "use-limited":
-		pdata["num_uses"] = 3
+		pdata["num_uses"] = []int{3, 1, 2}[fairIndex(rt, "parentUses", 3)] // 1: the creation request is the parent's final use
 	case "batch":
 		pdata["type"] = "batch"
 	case "periodic":
@@ -520,6 +520,17 @@ func c07nsCreateCase(t *testing.T, rt *rapid.T, env *c07nsEnv, rec *verifx.Recor
 			decoys[n] = d
 		}
 		path = "auth/token/create/r"
+		// the same-named roles of the other namespaces may have been used just before (whatever the server keeps of a
+		// role it has served must not leak into another namespace)
+		for n := 0; n < 3; n++ {
+			if decoys[n] != nil && fairIndex(rt, fmt.Sprintf("decoy%dUsedFirst", n), 2) == 0 {
+				wr := env.in(n, logical.UpdateOperation, "auth/token/create/r", tc.root, map[string]any{"ttl": "5m"})
+				if wr.ok() && wr.resp != nil && wr.resp.Auth != nil {
+					env.in(n, logical.UpdateOperation, "auth/token/revoke", tc.root, map[string]any{"token": wr.resp.Auth.ClientToken})
+				}
+				rec.Class("decoy-role-used-first", 1)
+			}
+		}
 	}
 
 	accBefore := env.accessors()
